@@ -102,6 +102,7 @@ def run(fb, rep, tier):
     exact(fb, rep)
     budgets(fb, rep)
     plumbing(fb, rep)
+    limit_setters(fb, rep)
 
 
 def status_mapping(fb, rep):
@@ -274,3 +275,28 @@ def plumbing(fb, rep):
             rep.check(used, 'R16.5', '%s|uses-its-interrupt-parameter' % f.short, f.where(), 'the interrupt parameter is read or forwarded',
                       '%s takes the interrupt pointer `%s` and never reads or forwards it: every solve started below it ignores a raised flag' % (f.short, mine[1]))
     rep.not_decided[:] = sorted(set(rep.not_decided))
+
+
+def limit_setters(fb, rep):
+    """R16.6: a limit of zero is a limit (no iteration / no time), only a negative argument stands for something else.  The solver's limit setters
+    normalise their argument under a guard; that guard is `argument < 0` - `<= 0` would turn the limit 0 into "no limit" (-1)."""
+    rep.rule('R16.6', 'the solver\'s limit setters normalise only negative arguments (guard `arg < 0`), so that a limit of 0 stays a limit', floor=2)
+    k = 0
+    for nm in ('setTerminationIter', 'setTerminationTime'):
+        for f in fb.find('soplex::SPxSolverBase<double>::' + nm):
+            if not f.params:
+                continue
+            p = f.params[0][0]
+            for n in f.nodes:
+                if n.k != 'IfStmt' or n.kid('then') is None:
+                    continue
+                asg = [x for x in n.kid('then').walk() if x.k == 'BinaryOperator' and x.o == '=' and render(strip(x.kids[0])) == p]
+                if not asg:
+                    continue
+                k += 1
+                c = render(strip(n.kid('cond')))
+                ok = re.fullmatch(r'\(?%s < \(?0(\.0*)?\)?\)?' % re.escape(p), c) is not None
+                rep.check(ok, 'R16.6', '%s|normalising-guard' % nm, '%s:%d' % (f.file, n.l), 'guard is %s' % c,
+                          '%s replaces its argument by %s under the guard `%s`: a limit of 0 is no longer a limit of 0' % (nm, render(strip(asg[0].kids[1])), c))
+    if k < 2:
+        raise AnalysisBroken('R16.6: the normalising guards of setTerminationIter / setTerminationTime were not found')
